@@ -379,6 +379,43 @@ theorem extract_inject (sc : SpanCtx) (hv : sc.isValid = true) (ht : sc.traceId.
   rw [htrim]
   exact ⟨hw, rfl, rfl⟩
 
+/-! ## Further entry points: `Fields()`, the static `…FromHex` helpers -/
+
+/-- `Fields()` names exactly `traceparent` and `tracestate` (the two headers of the statement), in that order, and
+    returns true when the callback never declines -/
+theorem fields_names :
+    fields 0 = ([[116, 114, 97, 99, 101, 112, 97, 114, 101, 110, 116], [116, 114, 97, 99, 101, 115, 116, 97, 116, 101]], true) := by
+  decide
+
+/-- a declining callback sees a prefix of those names and `Fields()` answers false -/
+theorem fields_stop (n : Nat) (h0 : 0 < n) (h2 : n ≤ 2) : fields n = ((fields 0).1.take n, false) := by
+  have : n = 1 ∨ n = 2 := by omega
+  rcases this with rfl | rfl <;> decide
+
+/-- `TraceIdFromHex` inverts `TraceId::ToLowerBase16` -/
+theorem idFromHex_traceIdToHex (id : Bytes) (h : id.length = 16) : idFromHex 16 (traceIdToHex id) = id := by
+  unfold idFromHex traceIdToHex
+  rw [hexOfBytes_lower _ traceId_table_lower,
+    hexToBinary_exact _ 16 (by rw [lowerHex_length]; omega) (lowerHex_hex id), decodeHex_lowerHex]
+
+/-- `SpanIdFromHex` inverts `SpanId::ToLowerBase16` -/
+theorem idFromHex_spanIdToHex (id : Bytes) (h : id.length = 8) : idFromHex 8 (spanIdToHex id) = id := by
+  unfold idFromHex spanIdToHex
+  rw [hexOfBytes_lower _ spanId_table_lower,
+    hexToBinary_exact _ 8 (by rw [lowerHex_length]; omega) (lowerHex_hex id), decodeHex_lowerHex]
+
+/-- `TraceFlagsFromHex` inverts `TraceFlags::ToLowerBase16`, for all 256 flag bytes -/
+theorem idFromHex_flagsToHex (f : UInt8) : idFromHex 1 (flagsToHex f) = [f] := by
+  have e : flagsToHex f = hexOfBytes Gen.traceFlagsHex [f] := by simp [flagsToHex, hexOfBytes]
+  unfold idFromHex
+  rw [e, hexOfBytes_lower _ traceFlags_table_lower,
+    hexToBinary_exact _ 1 (by rw [lowerHex_length]; rfl) (lowerHex_hex [f]), decodeHex_lowerHex]
+
+/-- an input that does not fit yields the all-zero (invalid) id, never a partial one -/
+theorem idFromHex_overlong (n : Nat) (hex : Bytes) (h : hex.length > 2 * n) : idFromHex n hex = List.replicate n 0 := by
+  unfold idFromHex hexToBinary
+  rw [if_pos h]
+
 /-! ## Non-vacuity: the hypotheses are met by concrete contexts / headers -/
 
 def exampleCtx : SpanCtx :=
